@@ -3,7 +3,7 @@ import re
 
 from hir import (
     diverges, is_err_exit, nodes, walk, norm_path, last, pat_alternatives, pat_variant, pat_fields, pat_bindings, pat_strip,
-    pat_is_catchall, callee, call_args, fn_body, line_of, peel,
+    pat_is_catchall, callee, call_args, fn_body, line_of, peel, pp,
 )
 from flow import Flow
 
@@ -285,7 +285,17 @@ DROPPING_ADAPTORS = {"filter", "skip", "take", "step_by", "skip_while", "take_wh
 def _drops_elements(recv):
     """does the iterator chain in front of an adaptor drop elements of the collection (filter / skip / take ..)?"""
     r = peel(recv)
-    while isinstance(r, dict) and r.get("k") == "MethodCall":
+    while isinstance(r, dict) and r.get("k") in ("MethodCall", "Index", "Block"):
+        if r["k"] == "Block":
+            # the value of a block (an inlined helper) is its tail expression
+            r = peel(r.get("e") or {})
+            continue
+        if r["k"] == "Index":
+            # a sub-slice `xs[..n]` / `xs[a..]` / `xs[a..b]`: the elements outside the range are let go
+            if _is_range(r.get("i")):
+                return True
+            r = peel(r.get("e") or {})
+            continue
         if r["m"] in DROPPING_ADAPTORS:
             return True
         if r["m"] == "filter_map":
@@ -293,6 +303,14 @@ def _drops_elements(recv):
             return True
         r = peel(r["recv"])
     return False
+
+
+def _is_range(e):
+    e = peel(e) if isinstance(e, dict) else None
+    if not isinstance(e, dict):
+        return False
+    t = (e.get("ty") or "") + " " + pp(e)
+    return "range::Range" in t or "ops::Range" in t or (e.get("k") == "Binary" and "Range" in str(e.get("op")))
 
 
 def must_visit(n, derived, is_fold_call, depth=0):
